@@ -34,7 +34,9 @@ RULE = ("cdeclgen: 6-15 top-level items per program out of typedefs, enums, stru
         "(cexprgen constant expressions, in and out of range), designated/2-d/string/pointer/function-"
         "pointer initialisers, functions with 0-8 parameters and random statement trees (if/else, while, "
         "do, for, switch with constant-expression labels, goto, break/continue, nested and empty blocks); "
-        "cexprgen single items; gen_c3 modules; gen_ir_text modules with diamonds/loops/phis/casts. "
+        "cexprgen single items (incl. integer constants cast to pointers, high-character string literals into "
+        "char/signed/unsigned char arrays, int<->float initialisers, enum constants into narrower objects, "
+        "pointer/long/char-array aggregates); gen_c3 modules; gen_ir_text modules with diamonds/loops/phis/casts. "
         "non-trivial = every generated input that passed its validity gate; distinct by hash of the text")
 ASSUMPTIONS = ["gcc -fsyntax-only -std=c99 -pedantic-errors accepts exactly the valid C among the generated programs",
                "C3 and IR inputs are valid by construction (IR additionally passes ppci's verify_module)",
